@@ -94,8 +94,6 @@ def run_behaviour(bid, beh, seed, observe=None, expose=None):
                 m = live[step["ref"]][0]
             before = str(ro)
             res, status, warns, err = add(ro, m)
-            if type(m).__name__ != mabs["cls"] and status == "ok":
-                status = "misclassified:" + type(m).__name__
             if status == "ok":
                 if isinstance(res, execute.RunningOrder):
                     objs[o] = res
